@@ -122,6 +122,8 @@ func (g *grounder) eval1(t *Term) uint64 {
 			return 0
 		}
 		return uint64(sx(0) % sx(1))
+	case "concat":
+		return a(0)<<uint(t.args[1].w) | a(1)
 	case "bvult":
 		return b2u(a(0) < a(1))
 	case "bvule":
@@ -161,6 +163,104 @@ func (g *grounder) eval1(t *Term) uint64 {
 		}
 		return xxhash.Sum64(bs)
 	}
+	if t.tab != nil {
+		return t.tab[a(0)&0xff]
+	}
 	g.ok, g.why = false, "term kind "+t.op+" cannot be grounded"
 	return 0
+}
+
+// termVars collects the variables a term depends on.
+func termVars(t *Term, seen map[*Term]bool, out map[*Term]bool) {
+	if seen[t] {
+		return
+	}
+	seen[t] = true
+	if t.op == "var" {
+		out[t] = true
+		return
+	}
+	for _, a := range t.args {
+		termVars(a, seen, out)
+	}
+}
+
+// tabulateHash: when the arguments of a checksum depend on a single 8-bit variable (the one altered byte of a
+// corruption harness), the checksum is not abstracted at all: it is the 256-entry table of the real function,
+// written as an if-then-else chain over that variable. Returns nil if the arguments depend on more.
+func (r *Run) tabulateHash(args []*Term, w int, real func([]byte) uint64) *Term {
+	vars := map[*Term]bool{}
+	seen := map[*Term]bool{}
+	for _, a := range args {
+		termVars(a, seen, vars)
+		if len(vars) > 1 {
+			return nil
+		}
+	}
+	if len(vars) != 1 {
+		return nil
+	}
+	var v *Term
+	for x := range vars {
+		v = x
+	}
+	if v.w != 8 {
+		return nil
+	}
+	tab := make([]uint64, 256)
+	bs := make([]byte, len(args))
+	for val := 0; val < 256; val++ {
+		g := newGrounder(map[string]uint64{v.name: uint64(val)})
+		for i, a := range args {
+			bs[i] = byte(g.eval(a))
+		}
+		if !g.ok {
+			return nil
+		}
+		tab[val] = real(bs) & mask(w)
+	}
+	// the table is handed to the solver as a function of the variable with 256 point facts (cheap for congruence
+	// closure; an if-then-else chain over 64-bit constants is not)
+	r.TT.tabN++
+	res := r.TT.mk(fmt.Sprintf("tab:%d", r.TT.tabN), w, 0, "", v)
+	res.tab, res.tabVar = tab, v
+	return res
+}
+
+type hashRec struct {
+	args []*Term
+	res  *Term
+}
+
+// hashRecord remembers a checksum computation and adds the distinctness axiom instances against earlier
+// computations of the same function and length, whatever their representation (constant, table, UF application).
+// singleByteOnly restricts the instances to pairs that differ in exactly one argument position.
+func (r *Run) hashRecord(kind string, args []*Term, res *Term, singleByteOnly bool) {
+	if r.hashRecs == nil {
+		r.hashRecs = map[string][]hashRec{}
+	}
+	key := fmt.Sprintf("%s/%d", kind, len(args))
+	for _, prev := range r.hashRecs[key] {
+		if prev.res == res {
+			continue
+		}
+		if prev.res.op == "const" && res.op == "const" {
+			continue
+		}
+		same := r.TT.True()
+		ndiff := 0
+		for i := range args {
+			e := r.TT.Eq(args[i], prev.args[i])
+			if e.op != "true" {
+				ndiff++
+			}
+			same = r.TT.And(same, e)
+		}
+		if same.op == "true" || (singleByteOnly && ndiff != 1) {
+			continue
+		}
+		r.assume(r.TT.Or(same, r.TT.Not(r.TT.Eq(res, prev.res))))
+		r.Axioms++
+	}
+	r.hashRecs[key] = append(r.hashRecs[key], hashRec{args: args, res: res})
 }
